@@ -6,6 +6,7 @@ import UvModel.StreamW
   mode `c05`:
     open <pipe|ipc|tcp|fifo|tcpconn|tcpfail> [d=<0|1>]   stream kind (d = delayed connect error)
     env <k<n>|e<errno>>...                                more scripted syscall outcomes
+    envclear                                              drop the remaining scripted outcomes
     script <k> <op>...                                    ops of the k-th callback invocation
     w|wh|t|th <bufs>      uv_write / uv_write2 with handle / uv_try_write / uv_try_write2
     s | c | run | end     uv_shutdown / uv_close / uv_run(NOWAIT) / final peer report
@@ -100,6 +101,7 @@ def step (st : DS) : List String → DS × List String
     match k.toNat?, allSome (ops.map fun w => parseOpWords (w.splitOn ":")) with
     | some k, some l => ({ st with script := (k, l) :: st.script }, [])
     | _, _ => (st, ["bad-op"])
+  | ["envclear"] => ((doOps st [.clearEnv]).1, [])
   | ["run"] => let (st', out) := doOps st loopIter; (st', out ++ [s!"ran wqs={st'.s.wqs}"])
   | ["end"] =>
     let s := st.s
